@@ -235,6 +235,7 @@ class Exec:
         self.notes = []
         self.kind = "fix"
         self.applied = None
+        self.written = False
 
     def violation(self, key, detail):
         self.violations.append({"key": key, "detail": detail, "item": self.item})
@@ -389,6 +390,11 @@ def d_pipe(item, monitors=(), want_toi=False, fix=True, extra_argv=(), keep_file
         _instrument(ex)
         return rl
 
+    try:
+        st0 = os.stat(path)
+        st0 = (st0.st_ino, st0.st_mtime_ns)
+    except OSError:
+        st0 = None
     proxy = types.SimpleNamespace(rule_list=factory)
     saved = _ar.rule_list
     _ar.rule_list = proxy
@@ -419,6 +425,11 @@ def d_pipe(item, monitors=(), want_toi=False, fix=True, extra_argv=(), keep_file
     finally:
         _ar.rule_list = saved
     ex.stdout = so.getvalue()
+    try:
+        st1 = os.stat(path)
+        ex.written = st0 is not None and (st1.st_ino, st1.st_mtime_ns) != st0
+    except OSError:
+        ex.written = True
     if ex.outcome == "ok" and ex.rl is None:
         ex.outcome = "rejected"  # ClassifyError / configuration error handled by apply_rules
     try:
